@@ -5,6 +5,10 @@ import Hgxv.Model.C10
   `dload <sources natss> <targets natss>` -> `ok`
   `bip`                                  -> `<vertices v:attr> <adjacency u~v:attr> <id table v=obj>`
   `clique <0|1>`                         -> `<vertices> <adjacency>`
+  `inc <natsss>`                         -> `<lists ok> <shares ok> <covers ok>` (0/1): loads the table of incident lists the
+                                            real object returns (one list of hyperedges per node, in node order) and
+                                            evaluates the three parts of `incidentOK`; `line` then runs on that table
+                                            (`lineGraphFrom`) instead of the table computed from the hyperedge list
   `line <i|j> <s> <0|1>`                 -> `<vertices> <adjacency> <id table natss> <number of _distance calls>` | `exc`
   `dline <i|j> <s> <0|1>`                -> `<vertices> <adjacency> <id table src|tgt natss>` | `exc`
   `simp`                                 -> natss (lexicographically sorted)
@@ -15,6 +19,7 @@ structure St where
   nodes : List Nat := []
   es : List Edge := []
   des : List DEdge := []
+  inc : Option (List (List Edge)) := none
 
 def showAttrN : Option Nat → String
   | none => "-"
@@ -46,7 +51,7 @@ def showOR : Option Rat → String
 def step (s : St) : List String → St × String
   | ["load", nodes, edges] =>
     match nats? nodes, natss? edges with
-    | some n, some e => ({ s with nodes := n, es := e }, "ok")
+    | some n, some e => ({ s with nodes := n, es := e, inc := none }, "ok")
     | _, _ => (s, "bad-op")
   | ["dload", src, tgt] =>
     match natss? src, natss? tgt with
@@ -56,11 +61,18 @@ def step (s : St) : List String → St × String
     let r := bipartite s.nodes s.es
     (s, showGraph showBV r.g ++ " " ++
         showList "," "-" (fun (p : BV × Obj) => showBV p.1 ++ "=" ++ showObj p.2) r.idToObj)
+  | ["inc", tab] =>
+    match natsss? tab with
+    | some adj => ({ s with inc := some adj },
+        showBool (incListsOK s.es adj) ++ " " ++ showBool (incSharesOK adj) ++ " " ++ showBool (incCoversOK s.es adj))
+    | none => (s, "bad-op")
   | ["clique", k] => (s, showGraph toString (clique (k == "1") s.nodes s.es))
   | ["line", d, thr, w] =>
     match distArg d, rat? thr with
     | some d, some thr =>
-      match lineGraph s.nodes s.es d thr (w == "1") with
+      match (match s.inc with
+             | some adj => lineGraphFrom s.es d thr (w == "1") adj
+             | none => lineGraph s.nodes s.es d thr (w == "1")) with
       | some r => (s, showGraph toString r.g ++ " " ++ showNatss ((idTable s.es).map (·.2)) ++ " " ++ toString r.vis.length)
       | none => (s, "exc")
     | _, _ => (s, "bad-op")
